@@ -9,3 +9,80 @@ def c17_propertynames_node_instance(prop, case, bucket, detail):
     neutral = dict(case, drop_propertyNames_errors=True)
     res = prop.check(neutral)
     return not any(b[0] == "index-clean-raises" for b, _ in res.failures)
+
+
+import re as _re
+
+_SCHEME = _re.compile(r"^([A-Za-z][A-Za-z0-9+.-]*):(//)?")
+
+
+def _neutralise_schemes(v, found):
+    """Rewrite every URI whose scheme urllib does not treat as hierarchical to an http URI."""
+    def fix(s):
+        m = _SCHEME.match(s)
+        if m and m.group(1).lower() not in ("http", "https"):
+            found.append(s)
+            rest = s[m.end():]
+            rest = rest.replace(":", "/").replace(",", "/")
+            return "http://exotic-%s.test/%s" % (m.group(1).lower().replace("+", "-"), rest)
+        return s
+    if isinstance(v, str):
+        return fix(v)
+    if isinstance(v, list):
+        return [_neutralise_schemes(e, found) for e in v]
+    if isinstance(v, dict):
+        out = {}
+        for k, e in v.items():
+            if k in ("instances", "classes"):
+                out[k] = e
+            else:
+                out[fix(k) if _SCHEME.match(k) else k] = _neutralise_schemes(e, found)
+        return out
+    return v
+
+
+def exotic_scheme(prop, case, bucket, detail):
+    """Base URIs whose scheme urllib.parse.urljoin does not treat as hierarchical (urn:, tag:, unknown
+    schemes): relative and fragment-only references are not joined against them."""
+    found = []
+    neutral = _neutralise_schemes(case, found)
+    if not found:
+        return False
+    res = prop.check(neutral)
+    return not res.failures
+
+
+def _strip_sibling_ids(v, found, idkws=("id", "$id")):
+    if isinstance(v, list):
+        return [_strip_sibling_ids(e, found) for e in v]
+    if isinstance(v, dict):
+        out = {}
+        for k, e in v.items():
+            if k in idkws and "$ref" in v and isinstance(v.get("$ref"), str) and isinstance(e, str):
+                found.append(e)
+                continue
+            out[k] = _strip_sibling_ids(e, found) if k not in ("instances", "classes") else e
+        return out
+    return v
+
+
+def id_sibling_of_ref(prop, case, bucket, detail):
+    """An id / $id written next to $ref is used as the base for that very reference (the drafts say
+    siblings of $ref are ignored).  Neutralising rewrite: drop the sibling id."""
+    found = []
+    neutral = _strip_sibling_ids(case, found)
+    if not found:
+        return False
+    res = prop.check(neutral)
+    return not res.failures
+
+
+
+def neutralise_exotic_scheme(case):
+    found = []
+    return _neutralise_schemes(case, found), bool(found)
+
+
+def neutralise_id_sibling(case):
+    found = []
+    return _strip_sibling_ids(case, found), bool(found)
